@@ -38,7 +38,7 @@ type planSeg struct {
 	merges int    // merge depth
 }
 
-var planClasses = []string{"tall-edge", "xwide", "same-nodrops", "same-drops", "different", "empty-inputs", "nothing-survives", "chain", "tall", "random", "single-input", "updates"}
+var planClasses = []string{"tall-edge", "xwide", "empty-merged", "same-nodrops", "same-drops", "different", "empty-inputs", "nothing-survives", "chain", "tall", "random", "single-input", "updates"}
 
 type mergeDesc struct {
 	Class     string   `json:"class"`
@@ -237,6 +237,11 @@ func runMergePlan(c *Ctx, i int, rng *rand.Rand, class string, slice int) {
 	if class == "chain" || class == "random" {
 		nSteps = 1 + rng.Intn(3)
 	}
+	if class == "empty-merged" {
+		// an empty segment that still lists fields (output of a merge where nothing
+		// survived) is merged with live segments, in either order, without drops
+		nSteps = 2
+	}
 	var steps []step
 	usedAsInput := map[int]bool{}
 	pool := nLeaves
@@ -276,7 +281,7 @@ func runMergePlan(c *Ctx, i int, rng *rand.Rand, class string, slice int) {
 			for _, x := range st.inputs {
 				usedAsInput[x] = true
 			}
-		} else if s > 0 {
+		} else if s > 0 && class != "empty-merged" {
 			// chains: always include the previous output
 			st.inputs = append(st.inputs, pool-1)
 			for _, p := range perm {
@@ -290,6 +295,20 @@ func runMergePlan(c *Ctx, i int, rng *rand.Rand, class string, slice int) {
 		} else if class == "tall-edge" {
 			for x := 0; x < k; x++ {
 				st.inputs = append(st.inputs, x)
+			}
+		} else if class == "empty-merged" {
+			if s == 0 {
+				st.inputs = []int{0}
+			} else {
+				st.inputs = []int{1}
+				if nLeaves > 2 && rng.Intn(2) == 0 {
+					st.inputs = append(st.inputs, 2)
+				}
+				if rng.Intn(3) == 0 {
+					st.inputs = append([]int{pool - 1}, st.inputs...) // empty one first
+				} else {
+					st.inputs = append(st.inputs, pool-1) // live ones first
+				}
 			}
 		} else {
 			st.inputs = append(st.inputs, perm[:k]...)
@@ -307,6 +326,11 @@ func runMergePlan(c *Ctx, i int, rng *rand.Rand, class string, slice int) {
 				style = []int{0, 4, 2, 4}[rng.Intn(4)]
 			case "tall-edge":
 				style = []int{2, 4, 0, 3}[rng.Intn(4)]
+			case "empty-merged":
+				style = 5
+				if s > 0 {
+					style = rng.Intn(2)
+				}
 			}
 			st.styles = append(st.styles, style)
 		}
